@@ -2,6 +2,7 @@ import ErbiumModel.Lemmas.DnsTree
 import ErbiumModel.Lemmas.DnsMessage
 import ErbiumModel.Lemmas.DnsTotal
 import ErbiumModel.Lemmas.DnsDecoded
+import ErbiumModel.Props.C04
 /-! # C14 — DNS messages survive decode/encode unchanged, including name compression -/
 namespace Erbium.Props.C14
 open Erbium Erbium.DnsWire
@@ -106,6 +107,20 @@ theorem C14_decoded_roundtrip (b : Bytes) (hb : Octets b) (m : Pkt) (h : parse b
     (size : Nat) (wire : Bytes) (hc : Complete m size wire) (hsz : wire.length < 65536) :
     parse wire = .ok m :=
   message_roundtrip m (parse_wf hb h).1 size wire hc hsz
+
+/-- **C14 (decode, encode, decode — with no hypothesis on the encoding).** For every string of octets `b` the decoder
+    accepts as `m` and every limit from 512 to 65535: the re-encoding **exists** (no panic), is **no longer than the
+    limit**, and **decodes** — to `m` itself, or (only when `m` does not fit the limit) to `m` cut at a record boundary
+    from the end with TC set. -/
+theorem C14_decode_encode_decode (b : Bytes) (hb : Octets b) (m : Pkt) (h : parse b = .ok m)
+    (size : Nat) (hs : 512 ≤ size) (hs2 : size < 65536) :
+    ∃ wire, serialiseWithSize m size = some wire ∧ wire.length ≤ size ∧
+      (parse wire = .ok m ∨ ∃ ka kn kd, CutAt m ka kn kd ∧ parse wire = .ok (truncated m ka kn kd)) := by
+  have w := parse_wf hb h
+  obtain ⟨wire, hw⟩ := serialise_total (by decide) m (pktenc_of_wf w.1 w.2) size hs
+  have hlen : wire.length ≤ size :=
+    Props.C04.C04_never_exceeds_limit m size wire hw (Props.C04.question_fits m w.1.qname size hs)
+  exact ⟨wire, hw, hlen, Props.C04.C04_every_response_decodes m w.1 size hs wire hw (by omega)⟩
 
 /-! Non-vacuity: `www.example.com` after `example.com` is written as `www` + pointer and decodes back. -/
 def ex1 : Name := [[101, 120], [99]]
